@@ -31,7 +31,16 @@ def run_witnesses(ctx, chk, rid, groups):
     with open(ct, "w") as fh:
         fh.write(s.replace('path = "/repo"', 'path = "%s"' % REPO))
     shutil.copy(os.path.join(REPO, "Cargo.lock"), os.path.join(work, "Cargo.lock"))
-    env = dict(os.environ, CARGO_NET_OFFLINE="true", CARGO_TARGET_DIR=os.path.join(CACHE, "target-wit"))
+    # one target dir per analysed tree: the crate's un-hashed artefact names (libpricelevel.rlib) would otherwise be
+    # shared between /repo and a developer's scratch worktree; and always rebuild the crate under analysis
+    import hashlib
+    tdir = os.path.join(CACHE, "target-wit" + ("" if REPO == "/repo" else "-" + hashlib.sha1(REPO.encode()).hexdigest()[:8]))
+    fp = os.path.join(tdir, "debug", ".fingerprint")
+    if os.path.isdir(fp):
+        for d in os.listdir(fp):
+            if d.startswith("pricelevel-") or d.startswith("plvwit-"):
+                shutil.rmtree(os.path.join(fp, d), ignore_errors=True)
+    env = dict(os.environ, CARGO_NET_OFFLINE="true", CARGO_TARGET_DIR=tdir)
     env.pop("RUSTC_WORKSPACE_WRAPPER", None)
     r = subprocess.run(["cargo", "+nightly", "test", "--doc", "--offline"], cwd=work, env=env, capture_output=True, text=True)
     res = {}
